@@ -14,6 +14,7 @@ AlphaQuick == <<
   U(4, 5, "ok", "mismatch", "none", 16),
   U(4, 5, "ok", "absent", "none", 26),
   U(4, 5, "ok", "ok", "late", 17),
+  U(4, 5, "ok", "ok", "until2", 27),
   U(5, 4, "ok", "ok", "none", 18),
   U(4, 4, "ok", "ok", "none", 21),
   R(1, 2, 5, "ok", "ok", "none", 30),
@@ -35,6 +36,10 @@ AlphaThorough == AlphaQuick \o <<
   R(2, 3, 5, "ok", "ok", "in", 36),
   R(1, 1, 4, "ok", "ok", "none", 37),
   R(1, 2, 4, "ok", "absent", "none", 38),
+  U(4, 5, "ok", "ok", "from2", 28),
+  R(1, 2, 5, "ok", "ok", "until2", 39),
+  D(1, "ok", "ok", "from2"),
+  U(5, 5, "ok", "ok", "none", 29),
   D(1, "ok", "bad", "none"),
   D(2, "bad", "ok", "none")
 >>
